@@ -219,7 +219,11 @@ BASES = [('object', object, lambda x: True), ('Any', Any, lambda x: True), ('int
          ('str', str, lambda x: isinstance(x, str)), ('Union[int, str]', Union[int, str], lambda x: isinstance(x, (int, str))),
          ('Box', Box, lambda x: isinstance(x, Box)), ('type', type, lambda x: isinstance(x, type))]
 
-PLACEMENTS = ['root', 'root', 'root', 'list', 'tuple0', 'dictval', 'set', 'optional', 'nested-list']
+PLACEMENTS = ['root', 'root', 'root', 'list', 'tuple0', 'dictval', 'set', 'optional', 'nested-list',
+              'list-union-first', 'list-union-second', 'dictval-union-first']
+# a second Annotated member for unions made of Annotated members only: satisfied by nothing but what equals a sentinel
+_TWIN_SENTINEL = object()
+TWIN = Annotated[object, IsEqual[_TWIN_SENTINEL]]
 
 _LINE = re.compile(r'^(~?)\s*(True|False) ==\s')
 
@@ -263,6 +267,13 @@ def place(pl, hint, x):
             return list[hint], [x]
     if pl == 'optional':
         return Union[hint, None], x
+    # below a container, in a union whose members are all Annotated (no plain class among them)
+    if pl == 'list-union-first':
+        return list[Union[hint, TWIN]], [x]
+    if pl == 'list-union-second':
+        return list[Union[TWIN, hint]], [x]
+    if pl == 'dictval-union-first':
+        return dict[str, Union[hint, TWIN]], {'k': x}
     raise ValueError(pl)
 
 
@@ -302,12 +313,19 @@ def main():
             def model():
                 if pl == 'optional' and x is None:
                     return True          # the other member of Union[<hint>, None]
-                if not bmodel(x):
-                    return False
-                for e in exprs:
-                    if not e.ev(x):
+                def own():
+                    if not bmodel(x):
                         return False
-                return True
+                    for e in exprs:
+                        if not e.ev(x):
+                            return False
+                    return True
+                # (members are tried in order; an object equal to everything satisfies the twin member)
+                if pl.endswith('union-second'):
+                    return True if x == _TWIN_SENTINEL else own()
+                if pl.endswith('union-first'):
+                    return own() or bool(x == _TWIN_SENTINEL)
+                return own()
             m = safe(model)
             hint, px = place(pl, ann, x)
             W.evaluate((desc, short(x, 40)) if nontrivial else None)
